@@ -1,12 +1,12 @@
 (* C12 — EBP codec: decode is exact, re-encode is byte-identical, built EBPs encode/decode, time survives to 1 ns.
    This file holds only the property statements; proofs live in Proofs/Ebp*.v.
    Model: Model/Ebp.v (ebp/*.go with the repairs of F3 and of the CableLabs grouping loop); Spec: Spec/EbpSpec.v. *)
-From Gots Require Import Base.Prelude Model.Ebp Spec.EbpSpec Proofs.EbpTime Proofs.EbpSync Proofs.EbpDecode Proofs.EbpReencode.
+From Gots Require Import Base.Prelude Model.Ebp Spec.EbpSpec Proofs.EbpTime Proofs.EbpSync Proofs.EbpDecode Proofs.EbpReencode Proofs.EbpBuild.
 Import Ebp EbpSpec.
 
 (* ---- decode is exact: the readers (code as it is, g = false) invert the Spec serialisers, for every well-formed logical
    EBP (any flag combination, SAP, grouping chain, time, reserved tail), whatever follows the EBP in the buffer.
-   decoded_* is the object with exactly the encoded fields; the *_getters theorems spell out what each getter reports. ---- *)
+   decoded_comcast / decoded_cablelabs is the object with exactly the encoded fields; the getters theorems spell out what each getter reports. ---- *)
 Theorem C12_decode_ser_comcast : forall (c : comcast) (rest : bytes), wf_comcast c ->
   ReadEncoderBoundaryPoint false (ser_comcast c ++ rest) = Ok (Comcast, decoded_comcast c).
 Proof. exact read_ebp_comcast. Qed.
@@ -69,11 +69,50 @@ Print Assumptions C12_reencode_254_refuted.
 (* non-vacuity: a populated EBP of each flavour meets the hypotheses *)
 Example C12_wf_comcast_example :
   wf_comcast (mkC true false true false (Some 255) (Some 3) (Some 29) (Some (4294967295, 2147483648)) [1; 2; 255]).
-Proof. unfold wf_comcast. cbn. repeat split; try lia. repeat constructor. Qed.
+Proof. exact wf_comcast_example. Qed.
 Example C12_wf_cablelabs_example :
   wf_cablelabs (mkL true true false true 1161973808 (Some (5, Some 255)) (Some 2) (Some (28, [29; 127; 0]))
                     (Some (2147483648, 4294967295)) [9; 8]).
-Proof. unfold wf_cablelabs. cbn. repeat split; try lia. all: repeat constructor; lia. Qed.
+Proof. exact wf_cablelabs_example. Qed.
+
+(* ---- built EBPs: for every object in the stated consistency (field ranges of the Go types; grouping flag => exactly one id
+   for Comcast, a non-empty list of ids < 0x80 for CableLabs; at most 253 bytes after the length byte; not empty), whatever
+   sequence of setters / field assignments produced it: Data() is tag, length byte = number of bytes that follow, body;
+   Data() stores that length in the object; and decoding the bytes yields canon_comcast / canon_cablelabs = the object with unflagged fields reset,
+   which is the object itself when no value was stored under a cleared flag (strict_comcast, strict_cablelabs). ---- *)
+Theorem C12_build_encode_decode_comcast : forall e : t, cons_comcast e ->
+  ComcastData e = (169 :: len (comcast_body e) :: comcast_body e, set_DataFieldLength e (len (comcast_body e)))
+  /\ ReadEncoderBoundaryPoint false (fst (ComcastData e)) = Ok (Comcast, canon_comcast e).
+Proof. exact build_encode_decode_comcast. Qed.
+Print Assumptions C12_build_encode_decode_comcast.
+
+Theorem C12_build_encode_decode_cablelabs : forall e : t, cons_cablelabs e ->
+  CableLabsData e = (223 :: len (cablelabs_body e) :: cablelabs_body e, set_DataFieldLength e (len (cablelabs_body e)))
+  /\ ReadEncoderBoundaryPoint false (fst (CableLabsData e)) = Ok (CableLabs, canon_cablelabs e).
+Proof. exact build_encode_decode_cablelabs. Qed.
+Print Assumptions C12_build_encode_decode_cablelabs.
+
+Theorem C12_build_same_values_comcast : forall e : t, DataFieldTag e = 169 -> strict_comcast e ->
+  canon_comcast e = set_DataFieldLength e (len (comcast_body e)).
+Proof. exact canon_comcast_strict. Qed.
+Print Assumptions C12_build_same_values_comcast.
+
+Theorem C12_build_same_values_cablelabs : forall e : t, DataFieldTag e = 223 -> strict_cablelabs e ->
+  canon_cablelabs e = set_DataFieldLength e (len (cablelabs_body e)).
+Proof. exact canon_cablelabs_strict. Qed.
+Print Assumptions C12_build_same_values_cablelabs.
+
+Theorem C12_build_same_flags_comcast : forall (e : t) (mask : N), cons_comcast e -> flag (canon_comcast e) mask = flag e mask.
+Proof. exact canon_comcast_flags. Qed.
+Print Assumptions C12_build_same_flags_comcast.
+
+(* non-vacuity: an object made with the API only *)
+Example C12_cons_cablelabs_example :
+  let e := SetEBPTime (SetPartitionFlag (set_PartitionFlags (SetExtensionFlag (SetGroupingFlag (SetTimeFlag
+             (set_Grouping (SetSapFlag (SetSap CreateCableLabsEbp 255) true) [28; 29; 127]) true) true) true) 254) true)
+             (4294967296 * 1000000000 - 1) in
+  cons_cablelabs e /\ strict_cablelabs e /\ PartitionFlag e = true.
+Proof. exact cons_cablelabs_example. Qed.
 
 (* ---- time: every instant of the representable range 1968-01-20T03:14:08Z .. 2104-02-26T09:42:24Z (ns since 1900) ---- *)
 Theorem C12_time_roundtrip : forall (e : t) (tm : Z),
